@@ -30,8 +30,17 @@ def index_identity(B, G, n, rows=3):
 
     O = B.O
     v = B.params("v", (rows, n))
-    idx = B.scalars(U_._convert_basis_element_to_index(B.tensor(v)))
+    vt = B.tensor(v)
+    idx = B.scalars(U_._convert_basis_element_to_index(vt))
     G.fact("shape", tuple(np.shape(idx)) == (rows,), np.shape(idx))
+    # the rows handed in still denote the same basis states afterwards (and a second conversion agrees)
+    after = B.scalars(vt)
+    for r in range(rows):
+        for j in range(n):
+            G.eq("rows_unchanged[%d,%d]" % (r, j), after[r, j], v[r, j], tol=1e-13)
+    idx2 = B.scalars(U_._convert_basis_element_to_index(vt))
+    for r in range(rows):
+        G.eq("index_again[%d]" % r, idx2[r], idx[r])
     for r in range(rows):
         ref = O.frac(0)
         for j in range(n):
